@@ -169,6 +169,12 @@ def obligations(tier, rng):
                         continue
                     out.append(ob('C09', 'dt', 'dt/%s/%s/p=%s/out=%s' % (mode, style, text(d), text(m)),
                                   defs=[['p', d]], main=m, N=N, mode=mode, style=style))
+    # one sub-spec referenced at DIFFERENT remaining horizons inside one assertion (matters after pastify())
+    for d in [('once_t', X, 0, 1), ('geq', X, C15), ('prev', X), ('eventually_t', X, 0, 1), ('since', X, Y)]:
+        for m in [('implies', P, ('always_t', P, 0, 2)), ('and', P, ('eventually_t', P, 0, 1)), ('or', ('next', P), P),
+                  ('and', ('eventually_t', P, 1, 2), ('historically_t', P, 0, 1))]:
+            for mode in ('offline', 'pastified'):
+                out.append(ob('C09', 'dt', 'dt/%s/horizons/p=%s/out=%s' % (mode, text(d), text(m)), defs=[['p', d]], main=m, N=N + 2, mode=mode, style='sub'))
     # nested sub-specs
     for d in [('prev', X), ('once_t', X, 0, 1), ('since', X, Y), ('eventually_t', X, 0, 1)]:
         for q in [('once', P), ('or', P, ('prev', P)), ('historically_t', P, 0, 1)]:
